@@ -1769,7 +1769,16 @@ func SortServicesByCreationTime(services []*Service) []*Service {
 		if r := strings.Compare(i.Attributes.Name, j.Attributes.Name); r != 0 {
 			return r
 		}
-		return strings.Compare(i.Attributes.Namespace, j.Attributes.Namespace)
+		if r := strings.Compare(i.Attributes.Namespace, j.Attributes.Namespace); r != 0 {
+			return r
+		}
+		// Name and namespace are not unique for services from ServiceEntries: Name is the host, two
+		// ServiceEntries of one namespace may claim the same host, and one ServiceEntry with several
+		// addresses gives one service per (host, address). Object name and address complete the order.
+		if r := strings.Compare(i.Attributes.K8sAttributes.ObjectName, j.Attributes.K8sAttributes.ObjectName); r != 0 {
+			return r
+		}
+		return strings.Compare(i.DefaultAddress, j.DefaultAddress)
 	})
 	return services
 }
